@@ -3479,7 +3479,12 @@ class DecVar(Vars):
         item_array = index_array(self.shape)
         indices = item_array[item]
 
-        return DecVarSub(self.dro_model, self, indices, fixed=self.fixed)
+        fixed = self.fixed
+        if not fixed and self.rand_adapt is not None:
+            rows = np.array(indices).reshape((-1, ))
+            fixed = not self.rand_adapt[rows].any()
+
+        return DecVarSub(self.dro_model, self, indices, fixed=fixed)
 
     def to_affine(self):
 
@@ -3721,6 +3726,7 @@ class DecVarSub(VarSub):
 
         self.rand_adapt[dec_indices_flat, rand_indices_flat] = 1
         self.dvars.rand_adapt = self.rand_adapt
+        self.dvars.fixed = False
 
     def __le__(self, other):
 
@@ -4138,6 +4144,9 @@ class DecAffine(Affine):
 
         event_adapt = self.event_adapt
 
+        if not all(getattr(item, 'fixed', True) for item in (self, x, z)):
+            raise ValueError('Incorrect convex expressions.')
+
         if isinstance(x, (DecVar, DecVarSub)):
             if x.to_affine().size > 1:
                 raise ValueError('The expression of x must be a scalar.')
@@ -4454,6 +4463,9 @@ class DecConvex(Convex):
 
     def __init__(self, convex, event_adapt):
 
+        if not getattr(convex.affine_in, 'fixed', True):
+            raise ValueError('Incorrect convex expressions.')
+
         super().__init__(convex.affine_in, convex.affine_out,
                          convex.xtype, convex.sign, convex.multiplier,
                          params=convex.params)
@@ -4664,6 +4676,10 @@ class ExpPiecewiseConvex(PiecewiseConvex):
 class DecPerspConvex(PerspConvex):
 
     def __init__(self, convex, event_adapt):
+
+        if not (getattr(convex.affine_in, 'fixed', True) and
+                getattr(convex.affine_scale, 'fixed', True)):
+            raise ValueError('Incorrect convex expressions.')
 
         super().__init__(convex.affine_in, convex.affine_scale, convex.affine_out,
                          convex.xtype, convex.sign, convex.multiplier)
